@@ -36,7 +36,7 @@ From GoCoap Require Import Base.Bytes Dedup.Model Server.Model Server.Proofs Ser
 From GoCoap Require Monitor.Model Monitor.Spec Monitor.Proofs.
 From GoCoap Require Import Server.KeepAlive Server.KeepAliveProofs.
 From GoCoap Require Import Server.Addr Server.AddrProofs Server.TokenKey Server.TokenKeyProofs.
-From GoCoap Require Import Server.OptGrow Server.OptGrowProofs.
+From GoCoap Require Import Server.OptGrow Server.OptGrowProofs Server.Queue.
 Import ListNotations.
 Open Scope Z_scope.
 
@@ -623,3 +623,44 @@ Print Assumptions C10_capped_growth_would_spin.
 Example C10_decode_loop_instance :
   pool_decode 20 0 (flood 1100) = ([0; 16; 32; 64; 128; 256; 512; 1024; 2048], Some (udp_decode (flood 1100))).
 Proof. exact flood_1100_decoded. Qed.
+
+(* ------------------------------------------------------------------ *)
+(* Round 4: the received-message queue between Conn.Process and the handler *)
+(* ------------------------------------------------------------------ *)
+(* Server/Queue.v: the datagrams of one remote address go socket -> read loop (Process, which ends with a BLOCKING
+   send) -> channel of ReceivedMessageQueueSize slots -> the connection's reader loop -> handler.
+   "in arrival order", for ALL schedules of the two loops and every queue size: *)
+Theorem C10_queue_arrival_order : forall size arrivals evs,
+  let s := qrun size arrivals evs in q_done s ++ q_chan s ++ q_sock s = arrivals.
+Proof. exact queue_in_order. Qed.
+Print Assumptions C10_queue_arrival_order.
+
+(* what the application has seen is a prefix of what arrived, at every moment; and everything once both are empty *)
+Theorem C10_queue_handled_is_prefix : forall size arrivals evs,
+  exists rest, arrivals = q_done (qrun size arrivals evs) ++ rest.
+Proof. exact queue_handled_prefix. Qed.
+Print Assumptions C10_queue_handled_is_prefix.
+
+Theorem C10_queue_complete : forall size arrivals evs,
+  q_sock (qrun size arrivals evs) = [] -> q_chan (qrun size arrivals evs) = [] -> q_done (qrun size arrivals evs) = arrivals.
+Proof. exact queue_complete. Qed.
+Print Assumptions C10_queue_complete.
+
+(* the two loops never wait for each other for good: while something is left one of them can move *)
+Theorem C10_queue_no_deadlock : forall size s, (0 < size)%nat -> q_sock s <> [] \/ q_chan s <> [] ->
+  qstep size s QHandle <> s \/ qstep size s QRead <> s.
+Proof. exact queue_progress. Qed.
+Print Assumptions C10_queue_no_deadlock.
+
+(* contrast (NOT the code): a read loop that hands the overflow to goroutines of their own instead of waiting has a
+   schedule in which the application sees 0, 2, 1 *)
+Theorem C10_spilling_read_loop_would_reorder :
+  exists evs, let s := spill_run 1 [0; 1; 2] evs in
+    sp_sock s = [] /\ sp_chan s = [] /\ sp_spill s = [] /\ sp_done s = [0; 2; 1].
+Proof. exact spilling_read_loop_reorders. Qed.
+Print Assumptions C10_spilling_read_loop_would_reorder.
+
+Example C10_queue_instance :
+  q_done (qrun 2 [10; 11; 12; 13; 14] [QRead; QRead; QRead; QHandle; QRead; QHandle; QRead; QRead; QHandle; QHandle; QRead; QHandle])
+  = [10; 11; 12; 13; 14].
+Proof. vm_compute. reflexivity. Qed.
